@@ -2,6 +2,7 @@
 
    up <size> <thr> <chunk> <create_ok> <parts_ok bits|.> <started> <complete_ok> <abort_ok> <put_ok>
      -> <outcome> <events,>            (parts in part-number order)
+   ext <size> <chunk> <part number> -> <start>/<length> of the part's ReadFileChunk
    dl <thr> <chunk> <max> <obj hex|.> <old: N | S<hex>> <head_ok> <rename_ok> <io_open_ok>
       <io_fail|-> <started> <sched ,|.> <single attempts ;|.> <ranged lists "|" of attempts|.>
      -> <outcome> T=<N|S hex> D=<N|S hex> P=<O|C|X per prefix> EV=<events,>
@@ -93,6 +94,8 @@ let () = iter_lines (fun line ->
       let (log, out) = legacy_multipart_upload_unrepaired (b create_ok) oks (nat_of_hex started) order
                          (b complete_ok) (b abort_ok) in
       str_uout out ^ " " ^ String.concat "," (List.map str_uev log)
+  | ["ext"; size; chunk; pn] ->
+      let (st, ln) = upload_part_extent (z size) (z chunk) (z pn) in string_of_z st ^ "/" ^ string_of_z ln
   | "dl" :: rest -> download legacy_download rest
   | "dlu" :: rest -> download legacy_download_unrepaired rest
   | _ -> "ERR bad command")
